@@ -146,7 +146,7 @@ def run(prop, tier, seed, replay=None):
     v.cov["impl_steps_applied"] = applied
     v.cov["requests_put_on_the_wire"] = nreq
     v.cov["quiescent_points_checked"] = len(obs)
-    if not replay and (len(obs) < len(scen) or nreq == 0):
+    if not replay and not v.violations and (len(obs) < len(scen) or nreq == 0):
         raise Internal("too few quiescent points (%d) or no request was ever sent (%d): vacuous" % (len(obs), nreq))
     if prop == "C09":
         twd = vlib.scratch("scht-")
